@@ -546,3 +546,39 @@ func InnermostRepoFunc(stack string) string {
 	}
 	return "?"
 }
+
+// ---- package-level state of the code under test (generated zz_verif_globals.go files) ----
+
+type globalsEntry struct {
+	pkg     string
+	snap    func() func()
+	restore func()
+}
+
+var globals []*globalsEntry
+
+// RegisterGlobals is called from generated init functions: snap copies every package-level variable
+// of one package and returns the function that writes the copies back.
+func RegisterGlobals(pkg string, snap func() func()) {
+	globals = append(globals, &globalsEntry{pkg: pkg, snap: snap})
+}
+
+// SnapshotGlobals records the package-level state once (idempotent); RestoreGlobals writes it back.
+func SnapshotGlobals() {
+	for _, g := range globals {
+		if g.restore == nil {
+			g.restore = g.snap()
+		}
+	}
+}
+
+func RestoreGlobals() int {
+	n := 0
+	for _, g := range globals {
+		if g.restore != nil {
+			g.restore()
+			n++
+		}
+	}
+	return n
+}
